@@ -669,6 +669,12 @@ func (s *Store) ServeConn(c io.ReadWriteCloser) {
 		case FaultStatus:
 			rq.Status = flt.Status
 			rep = errReply(f.op, f.opaque, flt.Status)
+			// "not found" / "not stored" must be truthful: the entry is evicted first (an
+			// eviction is always legal for a cache), otherwise the backend would contradict
+			// its own contents, which no memcached does.
+			if flt.Status == StNotFound || flt.Status == StNotStored {
+				delete(s.m, string(f.key))
+			}
 		case FaultCloseBefore:
 		default:
 			rep, closeAfter = s.applyLocked(f, &rq)
